@@ -30,7 +30,7 @@ H = {}
 
 def setup(ctx):
     path = os.path.join(ctx.scratch, "c18_harvest.json")
-    nruns = 48 if ctx.tier == "quick" else 360
+    nruns = 72 if ctx.tier == "quick" else 360
     env = dict(os.environ)
     env.pop("NUMBA_BOUNDSCHECK", None)
     env["NUMBA_DISABLE_JIT"] = "1"
@@ -42,19 +42,21 @@ def setup(ctx):
 
 
 def in_range_random(rng, name, widen=1.0):
+    """a harvested event with every argument moved by an independent log-uniform factor (half a decade,
+    or one and a half when widened): stays in the unit system of the run it came from, which mixing
+    the per-argument ranges of runs posed in different time units would not"""
     evs = H["store"][name]
     A = np.array([e[0] for e in evs], dtype=float)
+    base = A[int(rng.integers(len(A)))]
+    w = 0.5 if widen == 1.0 else 1.5
     out = []
     for j in range(A.shape[1]):
         col = A[:, j]
-        pos = col[col > 0]
-        if pos.size == 0 or np.all(col == col[0]):
-            out.append(float(col[int(rng.integers(len(col)))]))
-            continue
-        lo, hi = pos.min() / widen, pos.max() * widen
-        v = float(np.exp(rng.uniform(np.log(lo), np.log(hi))))
-        if np.all(col == np.round(col)) and name.find("edge") < 0 and name.find("block") < 0:
-            v = float(np.round(v))      # mutation counts
+        v = float(base[j])
+        if v > 0:
+            v = v * float(10 ** rng.uniform(-w, w))
+            if np.all(col == np.round(col)) and name.find("edge") < 0 and name.find("block") < 0:
+                v = float(np.round(v))      # mutation counts
         if np.any(col == 0) and rng.random() < 0.2:
             v = 0.0
         out.append(v)
@@ -76,6 +78,19 @@ def judge(rec, name, args, out, source):
         return False
 
 
+def improper(name, args):
+    """some cavity among the arguments is not a gamma distribution (shape or rate not positive)"""
+    if name in ("moments", "unphased_moments", "mutation_moments", "mutation_unphased_moments"):
+        cav = [(args[0], args[1]), (args[2], args[3])]
+    elif name in ("mutation_edge_moments", "mutation_block_moments"):
+        cav = []
+    elif name in ("twin_moments", "mutation_twin_moments"):
+        cav = [(args[0], args[1])]
+    else:
+        cav = [(args[1], args[2])]
+    return any(not (a_ > 0 and b_ > 0) for a_, b_ in cav)
+
+
 def _judge(rec, name, args, out, source):
     v = rec.violation
     tag = f"{name}{tuple(float(f'{a:.6g}') for a in args)}"
@@ -87,15 +102,7 @@ def _judge(rec, name, args, out, source):
     judge_means = source == "harvested"
     # "any VALID gamma cavity": a cavity with rate 0 (flat, before the node has received any
     # message) or non-positive shape is not a gamma distribution
-    if name in ("moments", "unphased_moments", "mutation_moments", "mutation_unphased_moments"):
-        cav = [(args[0], args[1]), (args[2], args[3])]
-    elif name in ("mutation_edge_moments", "mutation_block_moments"):
-        cav = []
-    elif name in ("twin_moments", "mutation_twin_moments"):
-        cav = [(args[0], args[1])]
-    else:
-        cav = [(args[1], args[2])]
-    if any(not (a_ > 0 and b_ > 0) for a_, b_ in cav):
+    if improper(name, args):
         rec.count(f"improper_cavity_not_judged:{name}")
         judge_means = False
     # the EP update (the *_projection wrapper) skips whenever a returned mean or variance is
@@ -143,7 +150,18 @@ def _judge(rec, name, args, out, source):
         if ref is None:
             rec.count("oracle_not_converged")
             return False
-        mean_check("E[t_i]", mi, ref["Ei"])
+        # E[t_i] is returned as (a_i + a_j + y) / t - z E[t_j]: when t_i is the much smaller of the two
+        # ages an error of a few percent in the second term is amplified by the cancellation
+        t_ = args[5] + args[1]
+        z_ = (args[5] + args[3]) / t_ if t_ > 0 else float("nan")
+        ei = rel(mi, ref["Ei"])
+        if judge_means and ei > 0.05 and rel(mj, ref["Ej"]) <= 0.05 and abs(mi - ref["Ei"]) <= 0.05 * z_ * ref["Ej"]:
+            rec.maxi(f"mean_relerr:{source}:{name}:E[t_i]-by-cancellation", ei)
+            v(f"{name}:mean-off:Eti-small-difference-of-two-terms-each-within-5-percent",
+              f"{tag}: E[t_i] = {mi!r}, numerical integration gives {ref['Ei']!r} (rel {ei:.3g}); E[t_j] is within "
+              f"{rel(mj, ref['Ej']):.3g}; E[t_i] = {(args[0] + args[2] + args[4]) / t_:.6g} - {z_:.4g} E[t_j] [{source}]")
+        else:
+            mean_check("E[t_i]", mi, ref["Ei"])
         mean_check("E[t_j]", mj, ref["Ej"])
     elif name == "rootward_moments":
         t_j = args[0]
@@ -316,6 +334,10 @@ def case(ctx, i, rec):
         try:
             out = tuple(float(x) for x in fn(*args))
         except Exception as e:
+            if source != "harvested" and improper(name, args):
+                # a random recombination with a flat (rate 0) cavity is not a valid gamma cavity
+                rec.count(f"raised_on_improper_random_cavity:{name}")
+                continue
             rec.violation(f"{name}:raised", f"{name}{tuple(args)} raised {e!r} [{source}]")
             continue
         rec.count(f"events:{name}")
